@@ -872,6 +872,8 @@ func rulesC13(w *World, o *Out) {
 		}
 	}
 
+	checkpointProvenance(w, o, fl, "C13.R2")
+
 	// ---- R3 ----
 	jv := w.MustFunc(o, "x/consensus/keeper", "Keeper", "jailValidatorsWhichMissedAttestation")
 	if jv != nil {
